@@ -155,7 +155,7 @@ func runC10(c *core.Ctx, o Options) {
 			for _, t := range s.tr.Traces(r.Fn, m.AllStates) {
 				for _, e := range t.Events {
 					if e.Kind == "set" || e.Kind == "send" {
-						bad3 = append(bad3, fmt.Sprintf("the outgoing handler %s registered in %s modifies or sends messages (%s); a retransmission would differ from the first transmission", r.Fn.Name(), r.Parent.Name(), e.String()))
+						bad3 = append(bad3, fmt.Sprintf("the outgoing handler %s registered in %s modifies or sends messages (%s); a retransmission would differ from the first transmission", an.NameOf(r.Fn), an.NameOf(r.Parent), e.String()))
 					}
 				}
 			}
